@@ -2,6 +2,7 @@
 // Line:  <kind> <op> <slot> <args...>     kinds: mi = Map<int,int>   ds = Dic<String>
 //                                               hi = HashMap<int,int> hs = HashDic<int>
 //                                               si = Set<int>         ss = Set<String>
+//                                               cv = converting constructors of Map / Dic (stateless, see conv())
 // int keys/values decimal, String keys/values hex ("-" = empty).  Public API observables are printed with
 // hash-container enumerations sorted (dump) and ordered-map enumerations in order.  The `raw` op additionally
 // prints the bucket count and the UNSORTED enumeration (foreach order): it ties the model's hash functions,
@@ -239,11 +240,75 @@ static std::string dsInit(const Toks& t)
 	return "ok " + str(d.length());
 }
 
+// ---- converting constructors -------------------------------------------------------------------
+// cv <variant> k1 v1 k2 v2 ...   the source map is built with set() in the given order, then converted:
+//   i2s  Map<int,int>    -> Map<String,int>    (decimal text: the order of the keys is NOT preserved)
+//   d2i  Map<double,int> -> Map<int,int>       (source keys k/4.0, truncation: keys merge)
+//   i2l  Map<int,int>    -> Map<int,long long> (same key type)
+//   i2d  Map<int,int>    -> Dic<int>           (Dic(const Map<K2,T2>&))
+//   s2s  Dic<int>        -> Dic<long long>     (Dic(const Dic<T2>&), through Map(const Map<K2,T2>&))
+// prints: raw layout of the result (foreach) | has get(.,-1) of every converted source key | == against the map
+// built by inserting the converted records one by one | remove of the first converted key: result, has after, length
+template<class K2, class K, class T>
+static std::string convOut(const Map<K2, int>& src, Map<K, T>& c)
+{
+	std::string s = str(c.length());
+	foreach2(K& kk, const T& vv, c) s += " " + show(kk) + ":" + str((long long)vv);
+	s += " |";
+	Map<K, T> ref;
+	foreach2(K2& k, const int& v, src)
+	{
+		K ck = k;
+		T cv = v;
+		s += c.has(ck) ? " 1" : " 0";
+		s += " " + str((long long)c.get(ck, (T)-1));
+		ref.set(ck, cv);
+	}
+	bool e = c == ref, ne = c != ref;
+	if (e == ne) return "err eq-ne-inconsistent";
+	s += e ? " | 1 |" : " | 0 |";
+	if (src.length() == 0) return s + " -";
+	K k0 = src.keys()[0];
+	bool r = c.remove(k0);
+	s += r ? " 1" : " 0";
+	s += c.has(k0) ? " 1 " : " 0 ";
+	return s + str(c.length());
+}
+
+static std::string conv(const Toks& t)
+{
+	size_t n = t.size();
+	if (n < 2 || (n - 2) % 2 != 0) return "bad-op";
+	const std::string& var = t[1];
+	if (var == "i2s" || var == "i2l" || var == "i2d") {
+		Map<int, int> src;
+		for (size_t i = 2; i < n; i += 2) src.set((int)num(t[i]), (int)num(t[i + 1]));
+		if (var == "i2s") { Map<String, int> c(src); return convOut(src, c); }
+		if (var == "i2l") { Map<int, long long> c(src); return convOut(src, c); }
+		Dic<int> c(src);
+		return convOut(src, c);
+	}
+	if (var == "d2i") {
+		Map<double, int> src;
+		for (size_t i = 2; i < n; i += 2) src.set((double)num(t[i]) / 4.0, (int)num(t[i + 1]));
+		Map<int, int> c(src);
+		return convOut(src, c);
+	}
+	if (var == "s2s") {
+		Dic<int> src;
+		for (size_t i = 2; i < n; i += 2) { String k; parse(t[i], k); src.set(k, (int)num(t[i + 1])); }
+		Dic<long long> c(src);
+		return convOut(src, c);
+	}
+	return "bad-op";
+}
+
 static std::string step(const Toks& t)
 {
 	if (t.size() < 2) return "bad-op";
 	const std::string& kind = t[0];
 	if (kind == "ds" && t[1] == "initasg") return dsInit(t);
+	if (kind == "cv") return conv(t);
 	if (kind == "mi") return ordered(MI, t, int(), int());
 	if (kind == "ds") return ordered(DS, t, String(), String());
 	if (kind == "hi") return hashed(HI, t, int(), int());
